@@ -6,7 +6,8 @@
 From Plotink Require Import Base.Prelude Base.Rnd.
 Open Scope Q_scope.
 
-(* op: 0 add, 1 sub, 2 mul, 3 div, 4 sqrt (b unused) *)
+(* op: 0 add, 1 sub, 2 mul, 3 div, 4 sqrt (b unused; judged by the defining inequalities of a correctly rounded root, and for operands
+   of 1/4 and above also against the executable Base.Rnd.sqrt_ne 110 p, which the fully rounded model of calculate_lm runs with) *)
 Inductive rcase := KR (p : Z) (op : Z) (a b r : Q).
 
 Definition ulp_at (p : Z) (s : Q) : Q :=
@@ -26,7 +27,7 @@ Definition checkR (c : rcase) : Z :=
                 else if (op =? 1)%Z then Qeqb (round_ne p (a - b)) r
                 else if (op =? 2)%Z then Qeqb (round_ne p (a * b)) r
                 else if (op =? 3)%Z then Qeqb (round_ne p (a / b)) r
-                else sqrt_rounded p a r in
+                else sqrt_rounded p a r && (if Qleb (1 # 4) a then Qeqb (sqrt_ne 110 p a) r else true) in
       if ok then 0%Z else 1%Z
   end.
 Definition runR (cs : list rcase) := report (map checkR cs).
